@@ -88,6 +88,14 @@ CLAIMED["C11"] = ("verif-net", "DESIGN.md §3 C11",
     "The exhaustive enumeration over small segment shapes and pointer positions the property also asks for is input enumeration and is not claimed. Evidence, not proof.",
     NET_NOTE, NET_TECH)
 
+CLAIMED["C14"] = ("verif-net", "DESIGN.md §3 C14",
+    "Multi-party SCMP exchange on drawn topologies: simulated hosts (receivers registered in several ASes) and pocketscion's real NetworkSimulator::dispatch (traversal, LocalNetworkSimulation error generation, maybe_create_scmp_reply, delivery) with hosts answering through the SDK's DefaultEchoHandler; "
+    "the driver owns the hosts' inboxes and decides when a host reacts. Injected: datagrams, datagrams to non-existing hosts, echo requests, SCMP errors, SCMP errors to non-existing hosts and malformed SCMP, with payloads 0..9216 B (boundary-directed around the 1232-byte budget), "
+    "on control-plane-built paths, with a link of the route down, the path expired, or neither (the reference network of C13 tells which outcome is due). Every SCMP message that reaches any host is checked: checksum valid by an independent pseudo-header checksum, error packets <= 1232 B whose quote is a prefix of the injected packet "
+    "(modulo the fields routers rewrite in flight); an echo request is answered exactly once with identical identifier/sequence/data, addressed back to the requester and delivered there; SCMP errors and malformed SCMP never trigger any packet; at most two packets per injection; the exchange terminates; datagram delivery is exactly-once. "
+    "Not covered: the endhost socket receive loop (UdpScionSocket::recv_from*, pub(crate) underlay seam: the planned hook H8 was not built), ScmpErrorHandler (pub(crate)) and the tunnel gateway's SCMP construction. Evidence, not proof.",
+    NET_NOTE, NET_TECH)
+
 NOT_APPLICABLE = {
     "C02": "pure function of a byte string (no stream, timer, shared state or fault in it): not a simulation target; needs exhaustive enumeration / a memory checker",
     "C03": "pure function of a packet model / byte string: needs an independent reference decoder and boundary-directed input generation, not a scheduler",
@@ -103,7 +111,6 @@ NOT_APPLICABLE = {
 
 # planned but not yet built engines: listed as not claimed until their check exists
 PENDING = {
-    "C14": "not claimed yet: SCMP ping-pong through pocketscion's dispatcher and the socket receive loop is planned; until that check exists nothing is claimed",
 }
 
 ENGINES = {
